@@ -189,6 +189,20 @@ pub fn replay(case: &Value) -> Option<String> {
                 None
             }
         }
+        "kx-peer" => {
+            let peer: B32 = unhx(&case["peer_pk"]).try_into().unwrap();
+            let sk: B32 = unhx(&case["sk"]).try_into().unwrap();
+            let pk = sodium::scalarmult_base(&sk);
+            let (mut rx, mut tx) = ([0u8; 32], [0u8; 32]);
+            let c = crypto_kx_client_session_keys(&mut rx, &mut tx, &pk, &sk, &peer).ok().map(|_| (rx, tx));
+            let (mut rx2, mut tx2) = ([0u8; 32], [0u8; 32]);
+            let s = crypto_kx_server_session_keys(&mut rx2, &mut tx2, &pk, &sk, &peer).ok().map(|_| (rx2, tx2));
+            if c == sodium::kx_client(&pk, &sk, &peer) && s == sodium::kx_server(&pk, &sk, &peer) {
+                None
+            } else {
+                Some("session keys / verdict differ from libsodium for this peer key".into())
+            }
+        }
         _ => Some("unknown C05 replay kind".into()),
     }
 }
@@ -200,7 +214,7 @@ pub fn run() -> i32 {
     let seed = ctx.seed;
     let ss = scalars(seed, ctx.tier);
     let ps = points(seed, ctx.tier);
-    ctx.rule = format!("full product scalars x points: {} scalars (every integer in [0,64), [2^254-8,2^254+8], [L-8,L+8], [8L-8,8L+8], [2^255-8,2^255+8), [2^256-16,2^256), RFC 7748 scalars, seeded members) x {} point encodings (every integer u in [0,{}), [p-64,p+64], [2^255-64,2^255+64), [2^256-64,2^256), the complete low-order table with and without bit 255, RFC 7748 vectors, honest public keys, seeded members), each through dryoc and libsodium crypto_scalarmult; plus base-point multiplication for every scalar, DH commutativity, box precomputation and key-exchange session keys; non-trivial = product cell executed in both implementations", ss.len(), ps.len(), ctx.tier.pick(2048, 32768));
+    ctx.rule = format!("full product scalars x points: {} scalars (every integer in [0,64), [2^254-8,2^254+8], [L-8,L+8], [8L-8,8L+8], [2^255-8,2^255+8), [2^256-16,2^256), RFC 7748 scalars, seeded members) x {} point encodings (every integer u in [0,{}), [p-64,p+64], [2^255-64,2^255+64), [2^256-64,2^256), the complete low-order table with and without bit 255, RFC 7748 vectors, honest public keys, seeded members), each through dryoc and libsodium crypto_scalarmult; plus base-point multiplication for every scalar, DH commutativity, box precomputation and key-exchange session keys (honest pairs, the low-order table, and every 7th + every special-class peer key of the point table in both roles); non-trivial = product cell executed in both implementations", ss.len(), ps.len(), ctx.tier.pick(2048, 32768));
     ctx.assume("reference 2: pure-Python RFC 7748 ladder over a dumped sub-product (ref/curve_check.py), run by bin/check after this binary");
     ctx.assume("libsodium's ref10 X25519 is the reference (its output buffer is zero when it refuses a blocklisted point, which equals the RFC 7748 result for a clamped scalar)");
     ctx.assume("the 2^512 input space is represented by the stated structural classes (clamping, top bit, twist/curve, small-order component, non-canonical reduction)");
@@ -333,6 +347,29 @@ pub fn run() -> i32 {
         }
     });
     ctx.absorb("dh-kx", st);
+
+    // key exchange with every peer key of the point table (top bit set, non-canonical, twist,
+    // small-order component): verdict and session keys must equal libsodium's in both roles
+    let peers: Vec<B32> = ps.iter().enumerate().filter(|(i, p)| i % 7 == 0 || point_class(p) != "ordinary(curve-or-twist)").map(|(_, p)| *p).collect();
+    let units: Vec<usize> = (0..peers.len()).collect();
+    let st = par_units(&units, |&pi, st| {
+        let peer = &peers[pi];
+        for ski in 0..3usize {
+            let sk = &sks[ski];
+            let pk = sodium::scalarmult_base(sk);
+            let (mut rx, mut tx) = ([0u8; 32], [0u8; 32]);
+            let c = guarded(AssertUnwindSafe(|| crypto_kx_client_session_keys(&mut rx, &mut tx, &pk, sk, peer).ok().map(|_| (rx, tx))));
+            let (mut rx2, mut tx2) = ([0u8; 32], [0u8; 32]);
+            let s = guarded(AssertUnwindSafe(|| crypto_kx_server_session_keys(&mut rx2, &mut tx2, &pk, sk, peer).ok().map(|_| (rx2, tx2))));
+            let ok = c == Ok(sodium::kx_client(&pk, sk, peer)) && s == Ok(sodium::kx_server(&pk, sk, peer));
+            st.eval(&("kx-peer", pi, ski), true, if ok { "kx(arbitrary peer)==libsodium" } else { "kx(arbitrary peer)-differs" });
+            if !ok {
+                st.fail(Fail { check: "C05.x25519".into(), signature: format!("C05/kx/arbitrary-peer/{}", point_class(peer)), what: format!("session keys / verdict for peer key {} (own sk {}) differ from libsodium: client {:?} server {:?}", hx(peer), hx(sk), c.as_ref().map(|x| x.is_some()), s.as_ref().map(|x| x.is_some())), case: json!({"kind": "kx-peer", "peer_pk": hx(peer), "sk": hx(sk)}) });
+            }
+        }
+    });
+    ctx.note("kx_arbitrary_peers", json!(peers.len()));
+    ctx.absorb("kx-arbitrary-peers", st);
     ctx.require_outcome("mult==libsodium");
     ctx.require_outcome("mult==0(low-order)");
     ctx.require_outcome("kx==libsodium");
